@@ -74,6 +74,7 @@ func (s *V1Session) DecodeFromBytes(data []byte, df gopacket.DecodeFeedback) err
 	s.ID = binary.LittleEndian.Uint32(data[5:9])
 	if s.AuthType == AuthenticationTypeNone {
 		// not expecting an auth code
+		s.AuthCode = [16]byte{}
 		s.BaseLayer.Contents = data[:10]
 		s.BaseLayer.Payload = data[10:]
 		s.Length = uint8(data[9])
